@@ -157,6 +157,14 @@ HbCov(t) ==
     IN {Cov("hb-" \o x, t) : x \in ph} \cup {Cov("hb", t)}
        \cup (IF P.D = 0 /\ P.Dhi = 0 THEN {Cov("hb-allzero", t)} ELSE {})
        \cup (IF P.Dscore + P.Dout > P.D /\ "cut" \in ph THEN {Cov("hb-cut-unasserted-quality", t)} ELSE {})
+       \* the outbound bubble-up of the over-subscription branch matters: Dout >= 2, more outbound members than were kept,
+       \* exactly Dout of them kept next to inbound ones (the selection held fewer than Dout, others were rotated in)
+       \cup (LET M1 == V.M \ MP!Neg(V)
+                 K  == M1 \cap Mp IN
+             IF "cut" \in ph /\ P.Dout >= 2 /\ P.Dscore + P.Dout <= P.D
+                /\ Cardinality(K \cap V.outb) = P.Dout /\ Cardinality(M1 \cap V.outb) > P.Dout /\ K \ V.outb # {}
+               THEN {Cov("hb-cut-outbound-quota-binding", t)} ELSE {})
+       \cup (IF "cut" \in ph /\ P.Dout >= 2 THEN {Cov("hb-cut-dout2", t)} ELSE {})
 
 \* what waited in gs.control is re-sent by the heartbeat (flush), still waits, or had become stale
 RetryViols ==
@@ -240,6 +248,10 @@ LineCov ==
                   THEN (IF NoHb THEN JoinCov(t) ELSE {})
                 ELSE LeaveCov(t) : t \in Topics}
          \cup (IF PureHb THEN RetryCov ELSE {})
+         \* one heartbeat grafts a connected peer in one topic and prunes it in another (one RPC carries both)
+         \cup (IF PureHb /\ \E t1 \in Keys(Pre.mesh) \cap Keys(Post.mesh), t2 \in Keys(Pre.mesh) \cap Keys(Post.mesh) :
+                            t1 # t2 /\ ((MeshOf(Post, t1) \ MeshOf(Pre, t1)) \cap (MeshOf(Pre, t2) \ MeshOf(Post, t2)) \cap Conn(Post)) # {}
+                 THEN {Cov("hb-graft-and-prune-same-peer", "")} ELSE {})
 
 PrintAll(tag, S) == \A x \in S : PrintT(<<tag, ToJson(x)>>)
 
